@@ -135,10 +135,18 @@ def case_C02(seed):
                 bad.append(f"length {m.length} != model {s['length']}")
             if bad:
                 key02 = 'C02:reported-values-differ-from-model'
+                # witness of the mechanism of F17/F17b: the predecessor on the path was replaced IN PLACE by a better candidate at some
+                # time (update() moves the replaced predecessors to prev_other), so this state was derived from its old content
+                replaced = j >= 1 and bool(getattr(lb[j - 1], 'prev_other', None))
                 if m.obs_ne >= 1 and any(o[0] == 'widen' for o in done) and len(bad) == 1 and bad[0].startswith('logprob') \
-                        and m.logprob < s['logprob']:
+                        and (m.logprob < s['logprob'] or replaced):
                     # a non-emitting state whose stored score is worse than its (improved) predecessor chain now implies
                     key02 = 'C02:stale-non-emitting-score-after-widening'
+                elif m.obs_ne == 0 and any(o[0] == 'widen' for o in done) and len(bad) == 1 \
+                        and bad[0].startswith('logprob') and ((case['cfg'].get('non_emitting_states') and m.logprob < s['logprob']) or replaced):
+                    # the same mechanism one step later: an EMITTING state derived from a non-emitting chain whose entry was
+                    # improved in place, in a later round, by a candidate that carries an OLD round number (finding F17b)
+                    key02 = 'C02:stale-emitting-score-after-widening'
                 viol.append((key02,
                              f"after {done}: state #{j} {m.key}: " + '; '.join(bad),
                              {'case': U.case_repr(case), 'ops': done, 'state_index': j, 'key': [str(x) for x in m.key],
